@@ -237,13 +237,13 @@ def sub_stacks(ctx, shard, n):
 
 
 def sub_random(ctx, shard, n):
-    ctx.given("random", check_random, _st_random(), 3000 if ctx.quick else 5000)
+    ctx.given("random", check_random, _st_random(), 3000 if ctx.quick else 10000)
 
 
 def sub_polychords(ctx, shard, n):
     shs = _shorthands()
     strat = st.tuples(st.sampled_from(NAMES21), st.sampled_from(shs), st.sampled_from(NAMES21), st.sampled_from(shs)).map(list)
-    ctx.given("polychord", check_polychord, strat, 1500 if ctx.quick else 5000)
+    ctx.given("polychord", check_polychord, strat, 1500 if ctx.quick else 10000)
 
 
 SUBS = [
